@@ -49,6 +49,30 @@ def r1_immutability(run, tree):
     run.assume("exempt: ax, fig (drawing targets by contract); wrappers.streamplot autoscaling of a matplotlib norm object")
 
 
+def check_wrappers_pure(run, tree):
+    """Every drawing wrapper of plot/wrappers.py (and render, for the coordinate and data arrays it is handed) leaves the arrays it draws
+    alone: what map()/histogram2d() return in Plot.layers is the very array that was drawn."""
+    mi = tree.module("plot/wrappers.py")
+    n = 0
+    for name, fi in sorted(mi.functions.items()):
+        pnames = [a.arg for a in fi.node.args.args]
+        if not ({"x", "y", "z"} <= set(pnames)):
+            continue
+        n += 1
+        an = OriginAnalysis(tree, exempt_params=("ax", "fig"), exempt_sites=EXEMPT_SITES)
+        findings = an.analyse_entry(fi)
+        run.analysed(fi)
+        for f in findings:
+            run.violated("%s::%s::%s" % (f.fi.qual, f.what, norm(f.node)[:120]), f.fi.where(f.node),
+                         "the drawing wrapper %s modifies an object that may be its argument(s) %s - the arrays of the result that the plot function returns" % (name, f.params),
+                         "pixels / bins of the returned layer are masked or rewritten by the act of drawing it (plot=True changes the data)")
+        if not findings:
+            run.holds("%s::draws-without-modifying-its-arrays" % fi.qual, fi.where(), "%d functions, %d call sites analysed, no mutation of an argument" % (
+                len(an.functions_seen), an.call_sites))
+    if n == 0:
+        run.unresolved("plot/wrappers.py::drawing-wrappers", "src/osyris/plot/wrappers.py", "no drawing wrapper with (x, y, z) parameters found")
+
+
 # ------------------------------------------------------------------------------------------ R2 precedence
 def option_flow(tree, q):
     """D4 on an entry point: what reaches parse_layer's parameters, and where call-level options are used raw.  Labels that
@@ -171,7 +195,12 @@ def r5_per_layer_effect(run, tree):
     mf.check_map_history(run, tree)
 
 
-RULES = [r1_immutability, r2_precedence, r3_hidden_state, r4_no_bypass, r5_per_layer_effect]
+def r6_wrappers_pure(run, tree):
+    run.rule("C19.R6", "the drawing wrappers do not modify the arrays they are handed (shared with C03.R12 / C05.R8)", "D3 provenance from every wrapper with (x, y, z) parameters", "", floor=6)
+    check_wrappers_pure(run, tree)
+
+
+RULES = [r6_wrappers_pure, r1_immutability, r2_precedence, r3_hidden_state, r4_no_bypass, r5_per_layer_effect]
 
 
 def t_map_space(run, tree):
